@@ -285,6 +285,22 @@ def directory_cases():
         ("dir-parent", {"main.tsh": main, "lib/geometry.tsh": geo_up, "lib/util.tsh": util4, "util.tsh": util200}, "1200\n"),
         ("dir-child", {"main.tsh": main, "lib/geometry.tsh": geo_down, "lib/inner/util.tsh": util4, "inner/util.tsh": util200, "util.tsh": util200}, "24\n"),
         ("dir-both-utils", {"main.tsh": main_both, "lib/geometry.tsh": geo, "lib/util.tsh": util4, "util.tsh": util200}, "24 200\n"),
+    ] + same_base_name_cases()
+
+
+def same_base_name_cases():
+    """two DIFFERENT files with the same base name in different directories, with equally spelled private / public functions and
+    globals: equal names in different files never interfere (round 8: C10-A, the prefix of an imported file taken from its base name)"""
+    geo = 'var unit = 10\nvar Calls = 0\nfunc scale(n int) int {\n\tCalls = Calls + 1\n\treturn n * unit\n}\nfunc Area(w int, h int) int {\n\treturn scale(w * h)\n}\nfunc Size(n int) int {\n\treturn scale(n) + Calls\n}\n'
+    txt = 'var unit = 1\nvar Calls = 100\nfunc scale(n int) int {\n\tCalls = Calls + 1\n\treturn n + unit\n}\nfunc Width(s string) int {\n\treturn scale(len(s))\n}\nfunc Size(n int) int {\n\treturn scale(n) + Calls\n}\n'
+    main = 'import (\n\tgeo "geo/util.tsh"\n\ttxt "txt/util.tsh"\n)\nprint(geo.Area(2, 3))\nprint(txt.Width("abcd"))\nprint(geo.Size(1), txt.Size(1))\n'
+    main_rev = 'import (\n\ttxt "txt/util.tsh"\n\tgeo "geo/util.tsh"\n)\nprint(geo.Area(2, 3))\nprint(txt.Width("abcd"))\nprint(geo.Size(1), txt.Size(1))\n'
+    via = 'import t "../txt/util.tsh"\nfunc scale(n int) int {\n\treturn n * 10\n}\nfunc Area(w int, h int) int {\n\treturn scale(w * h) + t.Width("ab")\n}\n'
+    return [
+        ("same-base-name-two-directories", {"main.tsh": main, "geo/util.tsh": geo, "txt/util.tsh": txt}, "60\n5\n12 104\n"),
+        ("same-base-name-two-directories-other-order", {"main.tsh": main_rev, "geo/util.tsh": geo, "txt/util.tsh": txt}, "60\n5\n12 104\n"),
+        ("same-base-name-imported-by-its-namesake", {"main.tsh": 'import geo "geo/util.tsh"\nprint(geo.Area(2, 3))\n', "geo/util.tsh": via, "txt/util.tsh": txt}, "63\n"),
+        ("same-base-name-as-main", {"main.tsh": 'import u "sub/main.tsh"\nfunc scale(n int) int {\n\treturn n * 2\n}\nprint(scale(4), u.Width("abc"))\n', "sub/main.tsh": txt}, "8 4\n"),
     ]
 
 
@@ -307,6 +323,18 @@ def global_cases():
         out.append(("global-" + name, {"main.tsh": main, "lib.tsh": defs + get + 'print("lib", A, B, c)\n'}, "lib 3 2 4\n" + want))
         # the same file as the program itself
         out.append(("global-" + name + "-main", {"main.tsh": defs + get + 'print("lib", A, B, c)\nprint(Get())\n'}, "lib 3 2 4\n" + want))
+    # a PUBLIC global of a file that is reached along several paths / under several aliases is ONE variable, initialised once (the
+    # file has no private definitions and no top-level statements: outside the known finding multipath-import-runs-twice);
+    # round 8: C09-B, "public" read off the stored (prefixed) name - the definition was emitted once per path and reset the counter
+    counter = 'var Count = 0\nfunc Next() int {\n\tCount = Count + 1\n\treturn Count\n}\n'
+    fa = 'import c "lib/counter.tsh"\nvar id = c.Next()\nfunc Id() int {\n\treturn id\n}\n'
+    fb = 'import c "lib/counter.tsh"\nvar ticket = c.Next()\nfunc Ticket() int {\n\treturn ticket\n}\n'
+    out.append(("shared-public-global-three-paths", {"main.tsh": 'import (\n\ta "a.tsh"\n\tb "b.tsh"\n\tc "lib/counter.tsh"\n)\nprint(a.Id())\nprint(b.Ticket())\nprint(c.Next())\n',
+                                                     "a.tsh": fa, "b.tsh": fb, "lib/counter.tsh": counter}, "1\n2\n3\n"))
+    out.append(("shared-public-global-two-aliases", {"main.tsh": 'import (\n\tc1 "counter.tsh"\n\tc2 "counter.tsh"\n)\nprint(c1.Next(), c2.Next(), c1.Next())\n',
+                                                     "counter.tsh": counter}, "1 2 3\n"))
+    out.append(("shared-public-global-diamond", {"main.tsh": 'import (\n\ta "a.tsh"\n\tb "b.tsh"\n)\nprint(a.Id(), b.Ticket())\n',
+                                                 "a.tsh": fa, "b.tsh": fb, "lib/counter.tsh": counter}, "1 2\n"))
     return out
 
 
